@@ -97,7 +97,7 @@ def nontrivial(v):
 
 def select(ctx, vecs):
     """Quick tier: all vectors without credentials on the canonical path and every vector the
-    model flags are kept, of the rest a seeded 30 % (chosen per request, so that the variants
+    model flags are kept, of the rest a seeded 20 % (chosen per request, so that the variants
     of one registration are selected together).  Thorough: everything."""
     lin = [v for v in vecs if v["linux"]]
     if not ctx.quick:
@@ -106,7 +106,7 @@ def select(ctx, vecs):
     for v in lin:
         nocred = v["ck"] != "valid" and v["ba"] in ("none", "wrong")
         h = int(hashlib.sha1(("%d|%s" % (ctx.seed, v["rk"])).encode()).hexdigest()[:8], 16) / float(1 << 32)
-        if v["viol"] or (nocred and v["sp"] == "canonical") or h < 0.30:
+        if v["viol"] or (nocred and v["sp"] == "canonical") or h < 0.20:
             sel.append(v)
     return sel, False
 
@@ -201,6 +201,7 @@ def run(ctx):
         "logged-out cookie after a restart, protected": sum(1 for v in vecs if v["ck"] == "loggedOutRestarted" and v["exp"] and set(v["exp"]) <= {"deny403", "redirLogin"}),
         "expired cookie after a restart, protected": sum(1 for v in vecs if v["ck"] == "expiredRestarted" and v["exp"] and set(v["exp"]) <= {"deny403", "redirLogin"}),
         "chunked body without JSON content type refused": sum(1 for v in vecs if v["b"] == "chunked" and v["exp"] == ["c415"]),
+        "streamed (unknown length, no transfer encoding) body without JSON content type refused": sum(1 for v in vecs if v["b"] == "stream" and v["exp"] == ["c415"]),
     }
     empty = [k for k, n in guard.items() if n == 0]
     if empty and not spec_bad:
